@@ -1,2 +1,50 @@
 (* C13 proofs, collected: full factorial, Plackett-Burman, Box-Behnken, generalized subset designs. *)
 From Artap Require Export Proofs.DoeLists Proofs.DoeFullfact Proofs.DoePB Proofs.DoeBB Proofs.DoeGSD.
+
+(* ---------------------------------------------------------------- row closed form --- *)
+(* Row q of the full factorial is the mixed-radix representation of q (first factor fastest):
+   used by the correspondence driver Run/C13Run.v to compare SAMPLED rows of designs that are too
+   big to be written out (level counts / run counts around 2^15 and 2^16). *)
+From Coq Require Import List Arith Lia.
+From Artap Require Import Model.Doe.
+Import ListNotations.
+Local Open Scope nat_scope.
+
+Lemma nth_error_map_seq {A} (f : nat -> A) n q : q < n -> nth_error (map f (seq 0 n)) q = Some (f q).
+Proof.
+  intros Lt. rewrite nth_error_map. rewrite (nth_error_nth' (seq 0 n) 0) by (rewrite seq_length; exact Lt).
+  rewrite seq_nth by exact Lt. reflexivity.
+Qed.
+
+Theorem fullfact_row_closed_form (levels : list nat) (q : nat) : levels <> [] -> q < prod_list levels ->
+  exists x, fullfact levels = Ok x /\ length x = prod_list levels /\ nth_error x q = Some (digits levels q).
+Proof.
+  intros NE Lt. exists (fullfact_rows levels). split; [destruct levels; [contradiction|reflexivity]|].
+  rewrite fullfact_rows_digits. split; [rewrite map_length, seq_length; reflexivity|].
+  apply nth_error_map_seq. exact Lt.
+Qed.
+
+Lemma Forall2_nth_error {A B} (R : A -> B -> Prop) (l : list A) : forall (l' : list B) q a,
+  Forall2 R l l' -> nth_error l q = Some a -> exists b, nth_error l' q = Some b /\ R a b.
+Proof.
+  induction l as [|x l IH]; intros l' q a F E; [destruct q; discriminate|].
+  inversion F as [|? y ? l2 Rxy F']; subst. destruct q as [|q]; simpl in *.
+  - inversion E; subst. exists y. split; [reflexivity|exact Rxy].
+  - apply (IH l2 q a F' E).
+Qed.
+
+Theorem build_full_fact_row_closed_form {T} (fl : list (list T)) (q : nat) :
+  fl <> [] -> q < prod_list (map (@length T) fl) ->
+  exists rows r, build_full_fact fl = Ok rows /\ length rows = prod_list (map (@length T) fl) /\
+                 select_row (digits (map (@length T) fl) q) fl = Ok r /\ nth_error rows q = Some r.
+Proof.
+  intros NE Lt. set (levels := map (@length T) fl) in *.
+  assert (levels <> []) as NE' by (subst levels; destruct fl; [contradiction|discriminate]).
+  destruct (fullfact_row_closed_form levels q NE' Lt) as (x & Ex & Lx & Nx).
+  destruct (fullfact_bijective fl NE) as (rows & Erows & Lrows & _).
+  exists rows. unfold build_full_fact in Erows. fold levels in Erows. rewrite Ex in Erows. simpl in Erows.
+  pose proof (construct_df_rel _ _ _ Erows) as Rel.
+  destruct (Forall2_nth_error _ _ _ _ _ Rel Nx) as (r & Nr & Er).
+  exists r. unfold build_full_fact. fold levels. rewrite Ex. simpl.
+  split; [exact Erows|]. split; [exact Lrows|]. split; [exact Er|exact Nr].
+Qed.
